@@ -114,6 +114,11 @@ def scenarios(tier):
     for variant in ("fixed_list_extended", "fixed_tuple_shortened"):
         out.append(dict(kind="foreign", lengths={"b": 2}, rep_max=2, fmt="res", delete=False, keep=["true", 0],
                         variant=variant, budget=[1, 0, 1], torn="coarse", calls="all"))
+    # the single-index entry point on a runner object that is REUSED after one of its parameters was
+    # changed in place (params.add): the partial result of the earlier call belongs to other parameters
+    out.append(dict(kind="foreign", lengths={"b": 2}, rep_max=2, fmt="res", delete=False, keep=["true", 0],
+                    variant="fixed_changed", budget=[1, 0, 1], torn="coarse", calls="all",
+                    plan=["single:1", "single:1!changed_in_place"]))
     # restart with the SAME parameters, given to the restarted runner in another insertion order
     # (what a restart in a fresh process with another string-hash seed can produce on its own)
     for no_unpack in (False, True):
@@ -311,6 +316,10 @@ class Scenario:
         return out
 
 
+def in_place_plan(sc):
+    return any(m.endswith("!changed_in_place") for m in (sc.get("plan") or []))
+
+
 def make_runner(sc, S, run_no):
     from models import runner_model as RM
     from pyphysim.simulations.results import Result, SimulationResults
@@ -360,7 +369,18 @@ def execute(sc, ctx, chk):
                 S.in_run_call = 0
                 S.calls_this_run = []
                 mode = plan[step]
-                if not ((mode == "all_same_runner" or sc.get("keep_runner_after_crash")) and runner is not None):
+                in_place = mode.endswith("!changed_in_place")
+                if in_place_plan(sc):
+                    # step 0: the original parameters (also when the step is retried after a crash);
+                    # changed step: the SAME object with one parameter changed through its live
+                    # parameters object, or - after a crash of that step - a fresh object that has
+                    # the changed parameters from the start
+                    if in_place and runner is not None:
+                        pd, unpacked, rep_max = grid_for(sc, 1)
+                        runner.params.add("fixed", pd["fixed"])
+                    elif runner is None or not in_place:
+                        runner, pd, unpacked, rep_max = make_runner(sc, S, 1 if in_place else 0)
+                elif not ((mode == "all_same_runner" or sc.get("keep_runner_after_crash")) and runner is not None):
                     runner, pd, unpacked, rep_max = make_runner(sc, S, run_no)
                 vars_ = RM.variations(RM._plain(pd) if run_no == 0 or sc["variant"] != "unpacked_array_other_shape"
                                       else {"b": [0, 1]}, unpacked)
@@ -369,11 +389,11 @@ def execute(sc, ctx, chk):
                 dur = S.durable(idxs, nvar, runner)
                 for i in idxs:
                     paths.append(dur[i][0])
-                foreign = sc["kind"] == "foreign" and run_no >= 1
+                foreign = sc["kind"] == "foreign" and (step >= 1 if in_place_plan(sc) else run_no >= 1)
                 before_img = S.fs.image() if foreign else None
                 try:
                     if mode.startswith("single:"):
-                        runner.simulate(int(mode[7:]))
+                        runner.simulate(int(mode[7:].split("!")[0]))
                     else:
                         runner.simulate()
                     status = "completed"
@@ -511,8 +531,12 @@ def judge_foreign(sc, S, chk, case, status, dur, before_img, runner, idxs, nvar,
     after = S.fs.image()
     if changed:
         if status == "completed":
+            try:
+                toks = [r.get_result_accumulated_values() for r in runner.results["v"]]
+            except Exception:  # noqa  (single-index runs keep their result in the partial file only)
+                toks = "(single-index run)"
             chk.fail(("foreign", v, "merged_instead_of_refused"), case,
-                     observed="restart completed; tokens %r" % ([r.get_result_accumulated_values() for r in runner.results["v"]],),
+                     observed="restart completed; tokens %r" % (toks,),
                      expected="an error: saved partial results belong to other parameters")
             return ("foreign", v, "merged")
         first = changed[0]
